@@ -241,7 +241,7 @@ off64_t _GD_Bzip2Seek(struct gd_raw_file_* file, off64_t offset,
 
   offset *= GD_SIZE(data_type);
 
-  if (mode == GD_FILE_WRITE) {
+  if (mode & GD_FILE_WRITE) {
     off64_t remaining = offset - file->pos * GD_SIZE(data_type);
     /* we only get here when we need to pad */
     while (ptr->base + ptr->end < offset) {
